@@ -460,6 +460,40 @@ func r103(c *Ctx) {
 			}
 		}
 	}
+	if !okAL {
+		// the same written as a loop: true exactly under `element == value` for an element ranging over the whole list,
+		// false only after the loop
+		allowF := c.field("RolloutController", "Allowlist")
+		nTrue, okLoop := 0, true
+		for _, rc := range retCases(al) {
+			b, isConst := constBool(rc.vals[0])
+			if !isConst {
+				okLoop = false
+				continue
+			}
+			if b {
+				nTrue++
+				eq := false
+				for _, ce := range rc.conds {
+					cm, ok := ce.asCmp()
+					if !ok || cm.op != token.EQL {
+						continue
+					}
+					for _, pr := range [][2]ssa.Value{{cm.x, cm.y}, {cm.y, cm.x}} {
+						if src, full := fullRangeElem(pr[0]); full && isLoadOfField(src, allowF) && pr[1] == ssa.Value(al.Params[1]) {
+							eq = true
+						}
+					}
+				}
+				if !eq {
+					okLoop = false
+				}
+			} else if inLoop(rc.ret.Block()) || len(dominatingCondsOtherThanLoop(rc.ret)) != 0 {
+				okLoop = false
+			}
+		}
+		okAL = okLoop && nTrue >= 1
+	}
 	c.ob(rule, "valueInAllowlist/exact-membership", al.Pos(), okAL, true, "")
 	// StopRollout clears the controller
 	sr := c.method("Service", "StopRollout")
